@@ -21,24 +21,33 @@ prop('C01', 'proof',
      'a broken proof or correspondence triggers a spec-vs-implementation hunt for a concrete position',
      WF + TIE, 'Lean 4 theorems over an executable model + spec-generated differential correspondence', '§6 C01')
 prop('C02', 'proof',
-     'Lean theorems relating the model\'s do_move (mirrors position.cpp branch by branch) to Rules.apply, plus differential on all six FEN fields '
-     'after every do/undo/null and a consistency check of the three redundant C++ placements at every step',
-     WF + 'half-move clock < 256; ' + TIE, 'Lean 4 theorems (model doMove = rules apply) + differential correspondence', '§6 C02')
+     'REFINEMENT PROVED in Lean (Props/C02.lean: C02_full, C02_replay_legal): for every model position whose six FEN fields satisfy Spec.wf and EVERY move legal under the rules '
+     '(Spec.legalMoves), for every Zobrist table, absPos(do_move(code of m)) = Spec.apply m on all six FEN fields, and the same for legal sequences of any length; the move-shape hypothesis is '
+     'derived from wf + legality by analysing the rules\' own generator (Lemmas/LegalShape.lean). Tie: differential on all six FEN fields after every do/undo/null, consistency of the three '
+     'redundant C++ placements at every step, and sessions over the real UCI command loop (position…moves / moves / printboard) judged by the rules spec',
+     WF + 'ply counter in step with the side to move (true after every FEN load with full-move number >= 1); half-move clock < 65535 (uint16_t after fix a7a3d11); ' + TIE,
+     'Lean 4 refinement proof (model doMove = rules apply, all wf positions x all legal moves) + differential correspondence + UCI-level sessions', '§12.4 C02')
 prop('C03', 'proof',
-     'Lean theorems undo(do(p,m)) = p on the model for every field incl. key and history, plus differential on every observable after every '
-     'undo in nested excursions and perft trees', WF + TIE, 'Lean 4 theorems (undo∘do = id) + differential correspondence', '§6 C03')
+     'PROVED in Lean (Props/C03.lean): undo_move(do_move(p,m)) = p on the WHOLE position record (board, side, rights, ep, clocks, five key components, key history) in every branch '
+     '(quiet, capture, en passant, promotion with/without capture, both castlings), for every Zobrist table; null move; arbitrary nested make/unmake trees (C03_nested); C03_full states it '
+     'for every Spec.wf position and every rules-legal move. Tie: differential on every observable after every undo in nested excursions, perft trees, and a 1240-ply game with '
+     'excursions across the key-history capacity', WF + 'key history below its capacity (800 entries) for the record-equality theorems; ' + TIE,
+     'Lean 4 proof (undo∘do = id, nested walks) + differential correspondence', '§12.4 C03')
 prop('C04', 'proof',
      'Lean theorems, for EVERY Zobrist table: incremental key = key from scratch after do/undo/null, key is a function of '
      '(placement, side, rights, ep); differential with seeded tables on both sides',
      '64-bit collisions excluded by the property itself; ' + TIE, 'Lean 4 invariant proof over all tables + differential correspondence', '§6 C04')
 prop('C07', 'proof',
-     'Lean theorems for the history predicates (repetition counts via key equality, rule50, material whitelist) plus differential on eight '
-     'predicates after every op of spec-generated games steered towards repetitions',
-     'no 64-bit key collision within a game; clock < 256; game length < MAX_PLIES; ' + TIE,
-     'Lean 4 theorems + differential correspondence', '§6 C07')
+     'PROVED in Lean (Props/C07.lean): C07_geometry — on every Spec.wf position and for either side the bitboard is_in_check (pawn/knight masks, magic slider lookups; uses C11 for all '
+     'occupancies) equals the rules\' ray-walk definition of "king attacked", and the packed-count material test equals "bare kings or a single minor piece"; attack equivalence for any '
+     'square; check-after-move via the C02 refinement; repetition/50-move predicates vs the key history (modulo 64-bit collisions). mate/stalemate = no generated move ± check (modulo C01). '
+     'Tie: differential on eight predicates after every op of spec-generated games steered towards repetitions, incl. a 1240-ply game',
+     'no 64-bit key collision within a game; clock < 65535; ' + TIE,
+     'Lean 4 proof (bitboard attack tests = rules-level attacks, via the C11 table theorem) + differential correspondence', '§12.4 C07')
 prop('C15', 'proof',
-     'Lean theorems for capture/quiet classification plus differential of all three predicates on every legal move against the rules-spec '
-     '(which plays the move)', WF + TIE, 'Lean 4 theorems + differential correspondence', '§6 C15')
+     'Lean theorems (Props/C15.lean): on every Spec.wf position and for every rules-legal move, move_is_capture = the rules\' capture and move_is_quiet = neither capture nor promotion '
+     '(C15_capture_quiet_full); the gives-check predicate is NOT proved (statement kept visible) and is decided by the differential of all three predicates on every legal move against the '
+     'rules-spec (which plays the move)', WF + TIE, 'Lean 4 theorems (capture/quiet full, gives-check by correspondence) + differential correspondence', '§12.4 C15')
 prop('C16', 'proof',
      'Lean theorems: packed Move / MoveInfo encodings decode to their fields (exhaustive decide over all field values), uci/parse_uci round trip; '
      'differential on uci text, codes, parse round trips and FEN->Position->FEN/keys on every visited position',
@@ -48,15 +57,16 @@ prop('C17', 'proof',
      'SAN text and parse_san(san(m)) = m for every legal move', 'std::regex ECMAScript semantics of the one pattern; ' + TIE,
      'Lean 4 theorems + differential correspondence', '§6 C17')
 prop('C18', 'proof',
-     'Lean theorems: the tables the build uses equal the committed Random64 re-ordered (decide), model key = published definition; differential '
-     'on PolyglotBook::hash after every op', 'provenance of Random64 (Spec/Random64.lean); ' + TIE,
-     'Lean 4 theorems (table equality by decide, key equality) + differential correspondence', '§6 C18')
+     'PROVED in Lean (Props/C18.lean): the tables the build uses equal the committed Random64 re-ordered (decide +kernel), and C18_key: the engine\'s book key equals the published definition '
+     'for every position incl. the en-passant clause (bit-level adjacency test = coordinate definition). Tie: differential on PolyglotBook::hash after every op, and sessions over the real '
+     'UCI loop with a book written from the spec\'s keys (the book move must be found)', 'provenance of Random64 (Spec/Random64.lean); ' + TIE,
+     'Lean 4 proof (table equality by kernel decide, full key equality) + differential correspondence + UCI book sessions', '§12.4 C18')
 
 prop('C11', 'proof',
      'C11_slider proved in Lean for every square and ALL 2^64 occupancies: 128 per-square kernel-checked obligations (first-writer-wins table of the '
      'model, built with the magics/index bits re-extracted from the build, equals the ray walk on every subset of the mask) lifted by inductive lemmas '
      '(subset enumeration soundness, the walk ignores a ray\'s last square); leaper and LINES/FULL_LINES tables by exhaustive decide; pawn attacks '
-     'proved per pawn (full statement kept as C11_pawn_Statement). Correspondence is EXHAUSTIVE over all table slots reachable through slider_attack<>.',
+     'proved for ARBITRARY pawn sets (C11_pawn: per-square table lifted through distributivity over union). Correspondence is EXHAUSTIVE over all table slots reachable through slider_attack<>.',
      'Lean kernel incl. decide +kernel evaluation (no native_decide); model of the C++ init algorithm is hand-written and compared exhaustively with the '
      'C++ tables on every run; ' + TIE, 'Lean 4 proof (kernel-evaluated finite obligations + induction) with exhaustive table correspondence', '§6 C11')
 prop('C19', 'proof',
@@ -75,7 +85,7 @@ SEARCH_TIE = ('tie to the code = CHESSPP_VERIF hooks (add-only) emit the search 
               'printed info/bestmove lines to the rules spec; harness runs under ASan+UBSan; ')
 prop('C05', 'proof',
      'Lean theorems over the search-trace automaton (one guard per code site that lets a move into a move list, a pv or _best_move): an accepted trace ends in exactly one BESTMOVE naming a root move '
-     'and every reported pv is a legal line. Tie: trace acceptance of real searches under adversarial schedules (stop after exactly k node visits, at every schedule point) and adversarially '
+     '(C05_bestmove) and every reported pv is a line of generated moves from the root (C05_pv_legal, proved by the invariant PVInv: a node\'s pv slot, once cleared by that visit, holds a legal line from the node\'s position). Tie: trace acceptance of real searches under adversarial schedules (stop after exactly k node visits, at every schedule point) and adversarially '
      'poisoned transposition tables, searches from inside games, tiny/negative clocks, searchmoves subsets; the printed bestmove/pv are checked against the rules spec; a rejected trace triggers a hunt',
      SEARCH_TIE + 'positions with >= 1 legal move; ' + TIE, 'Lean 4 theorems over a trace-acceptor automaton + trace acceptance of instrumented searches', '§6 C05')
 prop('C06', 'proof',
